@@ -149,6 +149,17 @@ CHECKS = {
             "14 feature sets; images are consistent and byte-reproducible; extraction returns the same data.",
             "Host tree on tmpfs; route B limited to what debugfs can express; tar route compares no xattrs/holes.",
             "DESIGN.md section 2, C18"),
+    "C01": ("exploration",
+            "runtime monitoring of the two-pass protocol (e2fsck -fy, then e2fsck -fn) over a finite, "
+            "enumerable universe of structured corruptions of committed corpus images; the oracle is the "
+            "pair of exit statuses, the problem log gives the finding signature",
+            "For 60000 enumerated corruption cases (superblock, descriptors, bitmaps, inodes, extent/indirect "
+            "blocks, directory leaves, htree nodes, xattr blocks, journal superblock, special inodes, block "
+            "swaps, byte mutations; 1-5 per case) a repair that claims success is followed by a clean -fn, "
+            "except for the listed non-convergence classes of the pinned tree (each reduced to a 1-minimal "
+            "corruption and keyed by field + second-pass problem codes).",
+            "The universe is finite and was soaked completely; quick runs a seeded 3000-case sample of it.",
+            "DESIGN.md section 2, C01"),
 }
 
 NOT_YET = "check not built yet in this round (planned, see DESIGN.md section 2)"
